@@ -103,8 +103,8 @@ func gen(g *hx.Gen) {
 			g.Emit(gx.CaseLine(gr, 1, toks))
 		})
 	}
-	// all labelled graphs n = 3, 4 (5 in the thorough tier), all vertex orders for GreedyColor
-	top := g.Pick(4, 5)
+	// all labelled graphs n = 3, 4, 5, all vertex orders for GreedyColor
+	top := 5
 	for n := 3; n <= top; n++ {
 		gx.AllLabelled(n, func(gr *gx.G) {
 			toks := gx.Variants(r, n, g.Pick(5, 9)+1, all)[1:]
@@ -116,7 +116,7 @@ func gen(g *hx.Gen) {
 	g.Exhaustive(fmt.Sprintf("all labelled graphs with n <= %d vertices, each with all n! vertex orders for GreedyColor", top))
 
 	// one graph per isomorphism class
-	topc := g.Pick(6, 8)
+	topc := g.Pick(7, 8)
 	for n := 3; n <= topc; n++ {
 		nv := g.Pick(5, 20)
 		if n == 8 {
